@@ -112,6 +112,16 @@ func body(s *simrt.Sim, tier string) {
 	if thorough {
 		nAgents += tp.Draw(3)
 	}
+	// Timer settings are not among the quantified configurations (see the
+	// assumptions below): an agent limited to one connection dials one peer per
+	// announce, so its blacklist must outlast one rotation through every peer
+	// that may have departed or be corrupting, or it cycles through them until
+	// the tracker forgets them (hours) without ever reaching the origin.
+	if min := time.Duration(nAgents)*p.AnnounceInterval + 2*time.Second; sc.ConnState.BlacklistDuration < min {
+		sc.ConnState.BlacklistDuration = min
+		c.P.Sched.ConnState.BlacklistDuration = min
+		s.Probe("blacklist_raised_above_rotation")
+	}
 	dls := make([]*dl, nAgents)
 	start := func(x *dl, delay time.Duration) {
 		x.returned, x.err = false, nil
@@ -347,6 +357,6 @@ func TestC19(t *testing.T) {
 			"origin/blobserver (metainfo endpoints) + blobclient", "tracker/announceclient + metainfoclient", "lib/hashring, lib/metainfogen, lib/blobrefresh"},
 		Stub: []string{"TCP (simnet) and HTTP (simhttp) transports", "write-back manager (no-op)", "health-check filter (identity)", "storage backend (none registered)"},
 		Rule: "one run = one swarm: tape-drawn blob/piece sizes, scheduler limits, tracker settings, 1-2 origins, 2-7 agents with drawn join times, and (70% of runs) a fault schedule of departures, crashes, partitions, stalls, latency, slow tasks and a corrupting peer; non-trivial = >=1 contested scheduling decision or fired fault",
-		Assumptions: []string{"seeder/leecher idle limits set far beyond the run (idle drops are C18)", "blacklist duration (12-30s) is kept above twice the announce interval (1-5s): with a shorter blacklist an agent limited to one connection re-dials the same corrupting seeder after every announce and never reaches the origin; timer settings are not among the quantified configurations, see DESIGN.md", "liveness bound = 6 x (conn idle + preemption + blacklist + 2 announce intervals + piece timeout + handshake + dial timeout) x (agents+1), fake time"},
+		Assumptions: []string{"seeder/leecher idle limits set far beyond the run (idle drops are C18)", "blacklist duration (12-30s) is kept above twice the announce interval (1-5s) and above one announce interval per agent: with a shorter blacklist an agent limited to one connection re-dials the same corrupting seeder, or rotates through the departed peers the tracker still lists, after every announce and never reaches the origin before the tracker forgets them; timer settings are not among the quantified configurations, see DESIGN.md", "liveness bound = 6 x (conn idle + preemption + blacklist + 2 announce intervals + piece timeout + handshake + dial timeout) x (agents+1), fake time"},
 	})
 }
